@@ -8,6 +8,7 @@ import (
 	"iter"
 	"os"
 	"path/filepath"
+	"strings"
 	"sync"
 	"time"
 
@@ -37,9 +38,23 @@ type rec struct {
 	onCrash   func() // copies the log directory, cancels the context
 	schedQ    []string
 	nTrigSync int
+	// the regular ways out (Fault)
+	fault     *Fault
+	fired     bool   // the scripted failure / cancellation happened
+	cancelled bool   // ... and it was a cancellation
+	cancel    func() // cancels the context of the life
+	stepSnap  func(nEff int) // when set: called at every state machine call (copies the log directory)
 }
 
 var errCrashed = errors.New("verif: process killed")
+var errInjected = errors.New("verif: injected failure")
+
+const (
+	opOK          = iota // perform the operation
+	opDead               // the process is dead (killed)
+	opFail               // do not perform it, report failure
+	opPerformFail        // perform it, report failure
+)
 
 func (r *rec) step(label string, sched []string) {
 	r.mu.Lock()
@@ -49,28 +64,62 @@ func (r *rec) step(label string, sched []string) {
 	}
 	r.steps = append(r.steps, stepObs{Label: label})
 	r.schedQ = sched
+	if r.stepSnap != nil {
+		r.stepSnap(r.nEff)
+	}
 }
 
-// effect is called by a wrapper just before it performs the real operation; false = the process is dead.
-func (r *rec) effect(s string) bool {
-	r.mu.Lock()
-	defer r.mu.Unlock()
-	if r.crashed {
-		return false
-	}
-	if r.crashAt >= 0 && r.nEff == r.crashAt {
-		r.crashed = true
-		r.onCrash()
-		return false
-	}
+func (r *rec) push(s string, counts bool) {
 	if len(r.steps) == 0 {
 		r.steps = append(r.steps, stepObs{Label: "?"})
 	}
 	st := &r.steps[len(r.steps)-1]
 	st.Effs = append(st.Effs, s)
-	r.nEff++
-	return true
+	if counts {
+		r.nEff++
+	}
 }
+
+// op is called by a wrapper just before it performs a real operation.  kind: 's' store call, 'c' commit
+// callback, 'o' anything else (cannot fail).  Entries starting with '!' in a step are markers, not effects.
+func (r *rec) op(s string, kind byte) int {
+	r.mu.Lock()
+	defer r.mu.Unlock()
+	if r.crashed {
+		return opDead
+	}
+	if r.crashAt >= 0 && r.nEff == r.crashAt {
+		r.crashed = true
+		r.onCrash()
+		return opDead
+	}
+	if f := r.fault; f != nil && !r.fired && r.nEff >= f.At {
+		switch {
+		case f.Kind == "cancel":
+			r.fired, r.cancelled = true, true
+			r.cancel()
+		case f.Kind == "fail" && kind != 'o':
+			r.fired = true
+			if !f.Performed {
+				r.push("!"+s, false)
+				return opFail
+			}
+			r.push(s, true)
+			r.push("!!", false)
+			return opPerformFail
+		}
+	}
+	if r.cancelled && kind == 'c' {
+		// consensus/driver/commit_listener.go: OnCommit selects on ctx.Done() and returns false
+		r.push("!"+s, false)
+		return opFail
+	}
+	r.push(s, true)
+	return opOK
+}
+
+// effect: an operation that cannot fail (broadcast, timer); false = the process is dead.
+func (r *rec) effect(s string) bool { return r.op(s, 'o') == opOK }
 
 func (r *rec) popSched() string {
 	r.mu.Lock()
@@ -85,30 +134,49 @@ func (r *rec) popSched() string {
 
 // ---------- wrappers ----------
 type walWrap struct {
-	in Store
-	r  *rec
+	in      Store
+	r       *rec
+	onClose func() // copies the log directory
 }
 
-func (w *walWrap) Flush() error {
-	if !w.r.effect("fl") {
+func (w *walWrap) do(s string, f func() error) error {
+	switch w.r.op(s, 's') {
+	case opDead:
 		return errCrashed
+	case opFail:
+		return errInjected
+	case opPerformFail:
+		return errors.Join(f(), errInjected)
 	}
-	return w.in.Flush()
+	return f()
 }
+func (w *walWrap) Flush() error { return w.do("fl", w.in.Flush) }
 func (w *walWrap) LoadAllEntries() iter.Seq2[Entry, error] { return w.in.LoadAllEntries() }
 func (w *walWrap) SetWALEntry(e Entry) error {
-	if !w.r.effect(entryStr(e)) {
-		return errCrashed
-	}
-	return w.in.SetWALEntry(e)
+	return w.do(entryStr(e), func() error { return w.in.SetWALEntry(e) })
 }
 func (w *walWrap) DeleteWALEntries(h types.Height) error {
-	if !w.r.effect(fmt.Sprintf("pr:%d", uint64(h))) {
-		return errCrashed
-	}
-	return w.in.DeleteWALEntries(h)
+	return w.do(fmt.Sprintf("pr:%d", uint64(h)), func() error { return w.in.DeleteWALEntries(h) })
 }
-func (w *walWrap) Close() error { return w.in.Close() }
+
+// Close is the deferred d.db.Close() of driver.Run.  A life that ends through it (Fault) leaves the directory
+// as it is after the store's own Close (flush of what is pending) - or, when the script says that flush fails,
+// as it is before it.
+func (w *walWrap) Close() error {
+	w.r.mu.Lock()
+	f, dead := w.r.fault, w.r.crashed
+	w.r.mu.Unlock()
+	if f == nil || dead {
+		return w.in.Close()
+	}
+	if !f.CloseOK {
+		w.onClose()
+		return errors.Join(w.in.Close(), errInjected)
+	}
+	err := w.in.Close()
+	w.onClose()
+	return err
+}
 
 type bcProp struct{ r *rec }
 type bcPv struct{ r *rec }
@@ -127,7 +195,7 @@ func (b bcPc) Broadcast(_ context.Context, p *Precommit) {
 type commitL struct{ r *rec }
 
 func (c commitL) OnCommit(_ context.Context, h types.Height, v Val) bool {
-	return c.r.effect(fmt.Sprintf("cb:%d,%d", uint64(h), v[0]))
+	return c.r.op(fmt.Sprintf("cb:%d,%d", uint64(h), v[0]), 'c') == opOK
 }
 func (c commitL) Listen() <-chan jsync.CommittedBlock { return nil }
 
@@ -196,17 +264,63 @@ type lifeObs struct {
 	Height   uint64
 	Calls    int
 	Fed      int    // inputs taken by the driver
-	Snapshot string // copy of the log directory at the moment of the kill
+	Snapshot string // copy of the log directory at the moment of the kill / after Run returned through Close
 	TrigSync int
 	RunErr   string
+	Stopped  bool // the life ended through the regular return path with a Fault script
+	Fired    bool // the scripted failure / cancellation happened (otherwise the life was shut down at its end)
+	StepDirs []stepDir
 }
 
+type stepDir struct {
+	NEff int
+	Dir  string
+}
+
+func isMarker(e string) bool { return strings.HasPrefix(e, "!") }
+
+// the effects performed (markers of failed operations left out)
 func (o *lifeObs) effects() []string {
 	var l []string
 	for _, s := range o.Steps {
-		l = append(l, s.Effs...)
+		for _, e := range s.Effs {
+			if !isMarker(e) {
+				l = append(l, e)
+			}
+		}
 	}
 	return l
+}
+
+// the operation that failed / the callback that refused ("" if none)
+func (o *lifeObs) failedOp() string {
+	for _, s := range o.Steps {
+		for i, e := range s.Effs {
+			if e == "!!" && i > 0 {
+				return s.Effs[i-1]
+			}
+			if isMarker(e) && e != "!!" {
+				return e[1:]
+			}
+		}
+	}
+	return ""
+}
+
+// readLog opens a copy of a log directory with a fresh store and returns what LoadAllEntries yields.
+func readLog(dir string) []string {
+	tmp := newDir()
+	defer os.RemoveAll(tmp)
+	copyDir(dir, tmp)
+	st, err := walstore.NewTendermintWALStore[Val, Hash, Addr](pathDB{path: tmp})
+	hx.Must(err)
+	var out []string
+	for e, err := range st.LoadAllEntries() {
+		hx.Must(err)
+		out = append(out, entryStr(e))
+	}
+	hx.Must(st.Close())
+	return out
 }
 
 func copyDir(src, dst string) {
@@ -250,6 +364,12 @@ func newDir() string {
 // runLife boots a validator process on dir (its log directory lives below it), feeds inputs, kills it after
 // crashAt effects (snapshotting the directory at that very moment), and returns what was observed.
 func runLife(c *Case, dir string, h uint64, base int, crashAt int, next feeder) *lifeObs {
+	return runLifeF(c, dir, h, base, crashAt, nil, false, next)
+}
+
+// runLifeF: as runLife; with a Fault script the life ends through driver.Run's regular return path and the
+// directory is copied when the deferred Close is over (stepDirs: also at every state machine call).
+func runLifeF(c *Case, dir string, h uint64, base int, crashAt int, fault *Fault, stepDirs bool, next feeder) *lifeObs {
 	curM = c.M
 	store, err := walstore.NewTendermintWALStore[Val, Hash, Addr](pathDB{path: dir})
 	hx.Must(err)
@@ -258,15 +378,22 @@ func runLife(c *Case, dir string, h uint64, base int, crashAt int, next feeder) 
 	ctx, cancel := context.WithCancel(context.Background())
 	defer cancel()
 	obs := &lifeObs{}
-	r := &rec{crashAt: crashAt}
+	r := &rec{crashAt: crashAt, fault: fault, cancel: cancel}
 	snap := func() {
 		obs.Snapshot = newDir()
 		copyDir(dir, obs.Snapshot)
 	}
 	r.onCrash = func() { snap(); cancel() }
+	if stepDirs {
+		r.stepSnap = func(n int) {
+			d := newDir()
+			copyDir(dir, d)
+			obs.StepDirs = append(obs.StepDirs, stepDir{n, d})
+		}
+	}
 	propCh, pvCh, pcCh := make(chan *Proposal), make(chan *Prevote), make(chan *Precommit)
 	drv := driver.New[Val, Hash, Addr](
-		log.NewNopZapLogger(), &walWrap{in: store, r: r}, &smWrap{in: sm, r: r}, commitL{r},
+		log.NewNopZapLogger(), &walWrap{in: store, r: r, onClose: snap}, &smWrap{in: sm, r: r}, commitL{r},
 		Bcasters{ProposalBroadcaster: bcProp{r}, PrevoteBroadcaster: bcPv{r}, PrecommitBroadcaster: bcPc{r}},
 		Listeners{ProposalListener: lis[*Proposal]{propCh}, PrevoteListener: lis[*Prevote]{pvCh}, PrecommitListener: lis[*Precommit]{pcCh}},
 		nil, nil,
@@ -340,6 +467,7 @@ func runLife(c *Case, dir string, h uint64, base int, crashAt int, next feeder) 
 	r.mu.Lock()
 	defer r.mu.Unlock()
 	obs.Steps, obs.NEff, obs.Crashed, obs.TrigSync = r.steps, r.nEff, r.crashed, r.nTrigSync
+	obs.Stopped, obs.Fired = fault != nil && !r.crashed, r.fired
 	obs.Height, obs.Calls = uint64(sm.Height()), e.calls
 	if runErr != nil {
 		obs.RunErr = runErr.Error()
